@@ -353,4 +353,151 @@ theorem parseName_abs (origin : Option (List UInt8)) (ls : List PLabel) (hne : l
     simp [wireName, flatLabels, encLabel]
     rfl
 
+/-! ### plain fields (numbers, `CLASSnnn`, `TYPEnnn`) through `read_field` -/
+
+/-- octets that may appear raw in a `read_field` field: not special, 7-bit -/
+def plainOctet (c : UInt8) : Bool := !special c && c < 0x80
+
+theorem fieldLen_plain (f rest : List UInt8) (hf : ∀ c ∈ f, plainOctet c = true)
+    (hrest : atFieldEnd rest = true) : fieldLen (f ++ rest) = f.length := by
+  induction f with
+  | nil => simpa using fieldLen_zero hrest
+  | cons c f ih =>
+    have hc := hf c (by simp)
+    simp only [plainOctet, Bool.and_eq_true, Bool.not_eq_true'] at hc
+    simp only [List.cons_append, fieldLen, atFieldEnd_plain _ hc.1, Bool.false_eq_true, ↓reduceIte,
+      List.length_cons]
+    rw [ih (fun x hx => hf x (by simp [hx]))]
+
+theorem utf8Valid_ascii (f : List UInt8) (hf : ∀ c ∈ f, plainOctet c = true) : utf8Valid f = true := by
+  induction f with
+  | nil => simp [utf8Valid]
+  | cons c f ih =>
+    have hc := hf c (by simp)
+    simp only [plainOctet, Bool.and_eq_true, decide_eq_true_eq] at hc
+    have hlt : c < 0x80 := hc.2
+    unfold utf8Valid
+    simp only [hlt, ↓reduceIte]
+    exact ih (fun x hx => hf x (by simp [hx]))
+
+/-- **`read_field`** on a plain field followed by a field end: the field is parsed as a whole and
+    consumed -/
+theorem readField_plain {α} (parse : List UInt8 → Option α) (k : Kind) (f rest : List UInt8) (v : α)
+    (hf : ∀ c ∈ f, plainOctet c = true) (hlen : f.length ≤ 65536) (hrest : atFieldEnd rest = true)
+    (hp : parse f = some v) (line : Nat) (paren : Bool) :
+    readField parse k ⟨f ++ rest, line, paren⟩ = .ok (v, ⟨rest, line, paren⟩) := by
+  unfold readField
+  simp only [fieldLen_plain f rest hf hrest, Gen.MAX_READ_FIELD_SIZE]
+  have : ¬ (f.length > 65536) := by omega
+  simp [this, utf8Valid_ascii f hf, hp]
+
+theorem digit_plain {c : UInt8} (h : isDigit c = true) : plainOctet c = true := by
+  unfold isDigit at h
+  simp only [Bool.and_eq_true, decide_eq_true_eq, UInt8.le_iff_toNat_le] at h
+  have h1 : (48 : UInt8).toNat = 48 := rfl
+  have h2 : (57 : UInt8).toNat = 57 := rfl
+  rw [h1, h2] at h
+  have hb : c = UInt8.ofNat c.toNat := by simp
+  have : ∀ n, 48 ≤ n → n ≤ 57 → plainOctet (UInt8.ofNat n) = true := by
+    intro n h48 h57
+    have : n = 48 ∨ n = 49 ∨ n = 50 ∨ n = 51 ∨ n = 52 ∨ n = 53 ∨ n = 54 ∨ n = 55 ∨ n = 56 ∨ n = 57 := by omega
+    rcases this with rfl | rfl | rfl | rfl | rfl | rfl | rfl | rfl | rfl | rfl <;> decide
+  rw [hb]; exact this _ h.1 h.2
+
+theorem decimal_plain (n : Nat) : ∀ c ∈ decimal n, plainOctet c = true :=
+  fun c hc => digit_plain (decimal_digits n c hc)
+
+theorem decimal_length_le (n : Nat) (h : n < 10 ^ 10) : (decimal n).length ≤ 10 := by
+  have : ∀ k n, n < 10 ^ (k + 1) → (decimal n).length ≤ k + 1 := by
+    intro k
+    induction k with
+    | zero => intro n hn; rw [decimal]; simp at hn; simp [hn]
+    | succ k ih =>
+      intro n hn
+      rw [decimal]
+      split
+      · simp
+      · have := ih (n / 10) (by rw [Nat.pow_succ] at hn; omega)
+        simp; omega
+  exact this 9 n h
+
+/-- **Integer fields through `read_field`**: `decimal n` for `n ≤ max` reads back as `n` -/
+theorem readField_decimal (max n : Nat) (hn : n ≤ max) (hmax : max < 10 ^ 10) (k : Kind)
+    (rest : List UInt8) (hrest : atFieldEnd rest = true) (line : Nat) (paren : Bool) :
+    readField (parseUInt max) k ⟨decimal n ++ rest, line, paren⟩ = .ok (n, ⟨rest, line, paren⟩) :=
+  readField_plain _ k _ rest n (decimal_plain n)
+    (by have := decimal_length_le n (by omega); omega) hrest (parseUInt_decimal max n hn) line paren
+
+/-! ### `CLASSnnn` and `TYPEnnn` -/
+
+theorem upperU8_digit {c : UInt8} (h : isDigit c = true) : upperU8 c = c := by
+  unfold isDigit at h
+  simp only [Bool.and_eq_true, decide_eq_true_eq, UInt8.le_iff_toNat_le] at h
+  have h2 : (57 : UInt8).toNat = 57 := rfl
+  rw [h2] at h
+  unfold upperU8
+  have : ¬ (97 ≤ c.toNat ∧ c.toNat ≤ 122) := by omega
+  simp [this]
+
+theorem map_upper_digits (ds : List UInt8) (h : ∀ c ∈ ds, isDigit c = true) : ds.map upperU8 = ds := by
+  induction ds with
+  | nil => rfl
+  | cons c ds ih => simp [upperU8_digit (h c (by simp)), ih (fun x hx => h x (by simp [hx]))]
+
+/-- no mnemonic of the table starts with the prefix: the table arms do not fire -/
+theorem lookupCaseless_none (tbl : List (String × Nat)) (p ds : List UInt8)
+    (hrows : tbl.all (fun r => !(r.1.toUTF8.toList.take p.length == p)) = true)
+    (hp : p.map upperU8 = p) (hds : ∀ c ∈ ds, isDigit c = true) :
+    lookupCaseless tbl (p ++ ds) = none := by
+  unfold lookupCaseless
+  have : tbl.find? (fun row => row.1.toUTF8.toList == (p ++ ds).map upperU8) = none := by
+    rw [List.find?_eq_none]
+    intro row hrow
+    rw [List.all_eq_true] at hrows
+    have := hrows row hrow
+    simp only [Bool.not_eq_true', beq_eq_false_iff_ne, ne_eq] at this
+    simp only [List.map_append, hp, map_upper_digits ds hds, beq_iff_eq]
+    intro heq
+    apply this
+    rw [heq]; simp
+  rw [this]
+
+theorem parseCode_prefixed (tbl : List (String × Nat)) (pfx : String) (p : List UInt8)
+    (hpfx : pfx.toUTF8.toList = p)
+    (hrows : tbl.all (fun r => !(r.1.toUTF8.toList.take p.length == p)) = true)
+    (hp : p.map upperU8 = p) (n : Nat) (hn : n ≤ 65535) :
+    parseCode tbl pfx (p ++ decimal n) = some n := by
+  unfold parseCode
+  rw [lookupCaseless_none tbl p (decimal n) hrows hp (decimal_digits n), hpfx]
+  simp [eqIgnoreCase, parseU16, parseUInt_decimal 65535 n hn]
+
+/-- **`CLASSnnn`** reads back as class `nnn` -/
+theorem parseClass_render (n : Nat) (hn : n ≤ 65535) : parseClass (renderClass n) = some n :=
+  parseCode_prefixed Gen.classParse Gen.classDisplayPrefix [67, 76, 65, 83, 83] (by decide +kernel)
+    (by decide +kernel) (by decide) n hn
+
+/-- **`TYPEnnn`** reads back as type `nnn` -/
+theorem parseType_render (n : Nat) (hn : n ≤ 65535) : parseType (renderType n) = some n :=
+  parseCode_prefixed Gen.typeParse Gen.typeDisplayPrefix [84, 89, 80, 69] (by decide +kernel)
+    (by decide +kernel) (by decide) n hn
+
+/-- a field starting with a letter is not an integer -/
+theorem parseUInt_letter (max : Nat) (c : UInt8) (rest : List UInt8) (hc : isDigit c = false)
+    (h43 : (c == 43) = false) : parseUInt max (c :: rest) = none := by
+  unfold parseUInt
+  cases rest with
+  | nil => simp [digitsVal, hc]
+  | cons c2 r => simp [h43, digitsVal, hc]
+
+/-- `TYPEnnn` is not a class -/
+theorem parseClass_type (n : Nat) : parseClass (renderType n) = none := by
+  unfold parseClass parseCode renderType
+  rw [lookupCaseless_none Gen.classParse [84, 89, 80, 69] (decimal n) (by decide +kernel) (by decide)
+    (decimal_digits n)]
+  have hpfx : Gen.classDisplayPrefix.toUTF8.toList = [67, 76, 65, 83, 83] := by decide +kernel
+  rw [hpfx]
+  cases hd : decimal n with
+  | nil => exact absurd hd (decimal_ne_nil n)
+  | cons d ds => simp [eqIgnoreCase, lowerU8]
+
 end QV.ZF
